@@ -84,7 +84,11 @@ IntArrays == {ArrL(<<IntL(1), IntL(2), IntL(3)>>), ArrL(<<IntL(2)>>), Var("ar"),
 KeptFields == {<<Each("v", Var("ar"), <<Assign("p", Tern(LoopF("first"), LoopF(f), Var("p")), 1), H("<"), P(Var("p")), H(">")>>, NoElse, 1)>> : f \in {"iter", "index", "first", "last"}}
               \cup {<<Assign("acc", ArrL(<<IntL(0)>>), 1), Each("v", Var("ar"), <<Assign("acc", Call(Var("acc"), "append", <<LoopF(f)>>), 1), P(Var("acc")), H(";")>>, NoElse, 1)>> : f \in {"iter", "index"}}
               \cup {<<Each("v", Var("ar"), <<Assign("l", Tern(LoopF("first"), Var("loop"), Var("l")), 1), P(Dot(Var("l"), "iter")), P(Dot(Var("l"), "last")), H(",")>>, NoElse, 1)>>}
-EachLoops == AfterJump \cup KeptFields \cup {<<H("<"), Each("v", a, Meta, els, 1), H(">")>> : a \in Arrays, els \in {NoElse, <<H("[empty]")>>}}
+\* a loop over an array literal whose elements depend on the pass of an enclosing loop
+DepArrays == {<<Each("v", Var("ar"), <<Each("w", ArrL(<<V, Bin("*", V, IntL(10))>>), <<P(Var("w")), H(" ")>>, NoElse, 1), H("|")>>, NoElse, 1)>>,
+              <<For(Assign("i", IntL(0), 1), Bin("<", Var("i"), IntL(3)), Post("++", Var("i")), <<Each("w", ArrL(<<Var("i")>>), <<P(Var("w"))>>, NoElse, 1)>>, NoElse, 1)>>,
+              <<Each("v", Var("ar"), <<Each("w", ArrL(<<LoopF("iter"), ArrL(<<V>>)>>), <<P(Var("w")), H(",")>>, NoElse, 1), H(";")>>, NoElse, 1)>>}
+EachLoops == AfterJump \cup KeptFields \cup DepArrays \cup {<<H("<"), Each("v", a, Meta, els, 1), H(">")>> : a \in Arrays, els \in {NoElse, <<H("[empty]")>>}}
        \cup {<<H("<"), Each("v", a, b, els, 1), H(">")>> : a \in IntArrays, els \in {NoElse, <<H("[empty]")>>},
                                                             b \in UNION {Placed(j) : j \in Jumps}}
 \* @for: init, condition, step direction
@@ -192,6 +196,12 @@ LoopProgs == {[p |-> <<Assign("loop", IntL(1), 1)>>, d |-> <<>>],
               [p |-> <<Each("v", Var("ar"), <<Assign("t", V, 1)>>, NoElse, 1), P(Var("t"))>>, d |-> CondData],
               [p |-> <<Each("v", ArrL(<<IntL(1), StrL("s")>>), <<P(V)>>, NoElse, 1)>>, d |-> <<>>]}
              \cup {[p |-> p, d |-> LoopData] : p \in UNION {LoopCtx(Assign("loop", e, 1)) : e \in LoopVals}}
+             \* the scope of an @if inside a loop ends with every pass: a name assigned in it is unknown in the next pass,
+             \* and may get a value of another type there
+             \cup {[p |-> <<Each("v", Var("ar"), <<If(<<Br(BoolL(TRUE), <<P(Tern(LoopF("first"), IntL(0), Var("t"))), Assign("t", V, 1)>>)>>, NoElse, 1)>>, NoElse, 1)>>, d |-> CondData],
+                   [p |-> <<Each("v", Var("ar"), <<If(<<Br(BoolL(TRUE), <<Assign("t", Tern(LoopF("first"), IntL(1), StrL("a")), 1), P(Var("t"))>>)>>, NoElse, 1)>>, NoElse, 1)>>, d |-> CondData],
+                   [p |-> <<For(Assign("i", IntL(0), 1), Bin("<", Var("i"), IntL(2)), Post("++", Var("i")),
+                               <<If(<<Br(Bin("==", Var("i"), IntL(0)), <<Assign("t", IntL(1), 1)>>)>>, <<P(Var("t"))>>, 1)>>, NoElse, 1)>>, d |-> <<>>]}
              \* names that differ in the case of their first letter are different names
              \cup {[p |-> <<Assign("Xa", IntL(1), 1), P(Var("xa"))>>, d |-> <<>>], [p |-> <<Assign("xa", IntL(1), 1), P(Var("Xa"))>>, d |-> <<>>],
                    [p |-> <<Assign("Xa", IntL(1), 1), Assign("xa", StrL("s"), 1), P(Var("xa")), P(Var("Xa"))>>, d |-> <<>>],
